@@ -143,6 +143,20 @@ func genC28(rt *rapid.T) c28Case {
 		}
 		return 0
 	}
+	// pickKey prefers (2 of 3) a key that is currently bound, so hits and
+	// effective removes are common.
+	pickKey := func() int {
+		var bound []int
+		for i, k := range c28Keys {
+			if _, ok := sh.keys[k]; ok {
+				bound = append(bound, i)
+			}
+		}
+		if len(bound) > 0 && rapid.IntRange(0, 2).Draw(rt, "preferBound") != 0 {
+			return rapid.SampledFrom(bound).Draw(rt, "boundKey")
+		}
+		return rapid.IntRange(0, nk-1).Draw(rt, "key")
+	}
 	kinds := []string{"fill", "fill", "fill", "hit", "hit", "lookup", "update", "update", "remove", "evict", "evict", "visit", "visit", "json", "jsonstruct"}
 	n := rapid.IntRange(0, 40).Draw(rt, "n")
 	for len(c.Ops) < n {
@@ -162,13 +176,13 @@ func genC28(rt *rapid.T) c28Case {
 				push(c28Op{K: "visit", Way: w})
 			}
 		case "hit":
-			key := rapid.IntRange(0, nk-1).Draw(rt, "key")
+			key := pickKey()
 			push(c28Op{K: "lookup", Key: key})
 			if w, ok := sh.lookup(c28Keys[key]); ok && w < c.Ways {
 				push(c28Op{K: "visit", Way: w})
 			}
 		case "lookup", "remove":
-			push(c28Op{K: k, Key: rapid.IntRange(0, nk-1).Draw(rt, "key")})
+			push(c28Op{K: k, Key: pickKey()})
 		case "update":
 			if c.Ways == 0 {
 				continue // no valid way id exists
